@@ -322,6 +322,53 @@ func run(ctx context.Context, t interface {
 		r.Fail(t, "configured-rules-differ", fmt.Sprintf("use=%v except=%v (%s): ConfiguredRules=%v, documented expansion=%v", cfg.Use, cfg.Except, cfg.Version, diff(ids, wantIDs), diff(wantIDs, ids)), c)
 		return
 	}
+	ref := reference(ctx, t, r, c, c, img, old, want)
+	if ref == nil {
+		return
+	}
+	if !compare(t, r, c, got, ref, "", "the combined run") {
+		return
+	}
+	expected, suppressedBy, total := ref.expected, ref.suppressedBy, ref.total
+	for k, n := range suppressedBy {
+		r.ClassN("suppressed-by:"+k, n)
+	}
+	features := 0
+	for _, b := range []bool{len(cfg.Use) > 0, len(cfg.Except) > 0, len(cfg.Ignore) > 0, len(cfg.IgnoreOnly) > 0, cfg.AllowCommentIgnores && len(c.Directives) > 0} {
+		if b {
+			features++
+		}
+	}
+	if features >= 2 && len(expected) > 0 && len(expected) < total {
+		r.NonTrivial(fmt.Sprintf("%v|%+v", c.Files, cfg))
+	}
+	for _, m := range c.Mods {
+		if !m.Target {
+			r.Class("has-import-only-module")
+			break
+		}
+	}
+	r.Sample(map[string]any{"kind": c.Kind, "config": cfg, "annotations_alone": total, "expected_after_suppression": len(expected), "directives": len(c.Directives)})
+}
+
+// refSets is the reference result for a case: what the configuration must report.
+type refSets struct {
+	want         map[string]bool     // selected rules
+	expected     map[string]bufx.Ann // by key(): must be reported
+	optional     map[string]bufx.Ann // may or may not be reported (outside the reference model)
+	suppressedBy map[string]int
+	total        int // annotations of the single-rule runs
+	isImport     map[string]bool
+}
+
+// reference computes the expected set: the union of the single-rule runs minus the reference suppressions.
+// nil = a single-rule run itself falsified an oracle (already recorded).
+func reference(ctx context.Context, t interface {
+	Fatalf(string, ...any)
+	Helper()
+}, r *evid.Recorder, c *Case, payload any, img, old bufimage.Image, want map[string]bool) *refSets {
+	cfg := c.Config
+	wantIDs := protogen.SortedKeys(want)
 	// import flags
 	isImport := map[string]bool{}
 	for _, f := range img.Files() {
@@ -335,24 +382,24 @@ func run(ctx context.Context, t interface {
 		}
 	}
 	expected := map[string]bufx.Ann{}
-	optional := map[string]bool{} // annotations without a file path (deleted files): path-based suppression is matched against the previous file, which the reference does not model
+	optional := map[string]bufx.Ann{} // annotations without a file path (deleted files): path-based suppression is matched against the previous file, which the reference does not model
 	suppressedBy := map[string]int{}
 	total := 0
 	for _, rule := range wantIDs {
 		alone, err := runCheck(ctx, c, img, old, []string{rule}, nil, nil, nil, false)
 		r.Eval()
 		if err != nil {
-			r.Fail(t, "single-rule-error", fmt.Sprintf("use=[%s]: %v", rule, err), c)
-			return
+			r.Fail(t, "single-rule-error", fmt.Sprintf("use=[%s]: %v", rule, err), payload)
+			return nil
 		}
 		for _, a := range alone {
 			if a.Type != rule {
-				r.Fail(t, "single-rule-config-reports-other-rule", fmt.Sprintf("use=[%s] reported %s", rule, a), c)
-				return
+				r.Fail(t, "single-rule-config-reports-other-rule", fmt.Sprintf("use=[%s] reported %s", rule, a), payload)
+				return nil
 			}
 			if isImport[a.Path] && c.Kind == "lint" {
-				r.Fail(t, "import-file-reported", fmt.Sprintf("%s is only an import but got %s", a.Path, a), c)
-				return
+				r.Fail(t, "import-file-reported", fmt.Sprintf("%s is only an import but got %s", a.Path, a), payload)
+				return nil
 			}
 			total++
 			sup := ""
@@ -393,7 +440,7 @@ func run(ctx context.Context, t interface {
 					coveredNow = coveredNow || under(p, a.Path)
 				}
 				if !coveredNow {
-					optional[key(a)] = true
+					optional[key(a)] = a
 					r.Class("annotation-on-moved-element:previous-file-suppression-rule-dependent")
 					continue
 				}
@@ -413,55 +460,85 @@ func run(ctx context.Context, t interface {
 				continue
 			}
 			if a.Path == "" && (len(cfg.Ignore) > 0 || len(ignoreOnlyRules[rule]) > 0 || cfg.ExcludeImports) {
-				optional[key(a)] = true
+				optional[key(a)] = a
 				continue
 			}
 			expected[key(a)] = a
 		}
 	}
+	return &refSets{want: want, expected: expected, optional: optional, suppressedBy: suppressedBy, total: total, isImport: isImport}
+}
+
+// compare checks a reported annotation set against the reference; keyPrefix / how name the code path observed.
+func compare(t interface {
+	Fatalf(string, ...any)
+	Helper()
+}, r *evid.Recorder, c any, got []bufx.Ann, ref *refSets, keyPrefix, how string) bool {
+	var cfg Config
+	var kind string
+	var ndirectives int
+	switch cc := c.(type) {
+	case *Case:
+		cfg, kind, ndirectives = cc.Config, cc.Kind, len(cc.Directives)
+	case *CLICase:
+		cfg, kind, ndirectives = cc.Config, cc.Kind, len(cc.Directives)
+	}
+	want, expected, optional, isImport := ref.want, ref.expected, ref.optional, ref.isImport
+	if keyPrefix != "" {
+		// the command line prints lines and columns as at least 1 (an annotation without a location is 1:1)
+		expected, optional = map[string]bufx.Ann{}, map[string]bufx.Ann{}
+		for _, a := range ref.expected {
+			expected[key(atLeast1(a))] = atLeast1(a)
+		}
+		for _, a := range ref.optional {
+			optional[key(atLeast1(a))] = atLeast1(a)
+		}
+	}
 	gotSet := map[string]bufx.Ann{}
 	for _, a := range got {
 		gotSet[key(a)] = a
-		if isImport[a.Path] && (c.Kind == "lint" || cfg.ExcludeImports) {
-			r.Fail(t, "import-file-reported", fmt.Sprintf("%s is only an import (imports excluded) but got %s", a.Path, a), c)
-			return
+		if isImport[a.Path] && (kind == "lint" || cfg.ExcludeImports) {
+			r.Fail(t, keyPrefix+"import-file-reported", fmt.Sprintf("%s: %s is only an import (imports excluded) but got %s", how, a.Path, a), c)
+			return false
 		}
 	}
 	for k, a := range expected {
 		if _, ok := gotSet[k]; !ok {
-			r.Fail(t, "annotation-missing:"+a.Type, fmt.Sprintf("cfg %+v: rule %s alone reports %s and no suppression covers it, but the combined run lacks it", cfg, a.Type, a), c)
-			return
+			r.Fail(t, keyPrefix+"annotation-missing:"+a.Type, fmt.Sprintf("cfg %+v: rule %s alone reports %s and no suppression covers it, but %s lacks it (it reports %d annotations, of this rule: %v)", cfg, a.Type, a, how, len(got), ofType(got, a.Type)), c)
+			return false
 		}
 	}
 	for k, a := range gotSet {
-		if _, ok := expected[k]; !ok && !optional[k] {
+		_, isOptional := optional[k]
+		if _, ok := expected[k]; !ok && !isOptional {
 			why := "not reported by that rule alone"
 			if !want[a.Type] {
 				why = "rule not selected"
 			}
-			r.Fail(t, "annotation-extra:"+a.Type, fmt.Sprintf("cfg %+v: combined run reports %s (%s, or suppressed per the reference: ignore=%v ignore_only=%v directives=%d)", cfg, a, why, cfg.Ignore, cfg.IgnoreOnly, len(c.Directives)), c)
-			return
+			r.Fail(t, keyPrefix+"annotation-extra:"+a.Type, fmt.Sprintf("cfg %+v: %s reports %s (%s, or suppressed per the reference: ignore=%v ignore_only=%v directives=%d)", cfg, how, a, why, cfg.Ignore, cfg.IgnoreOnly, ndirectives), c)
+			return false
 		}
 	}
-	for k, n := range suppressedBy {
-		r.ClassN("suppressed-by:"+k, n)
-	}
-	features := 0
-	for _, b := range []bool{len(cfg.Use) > 0, len(cfg.Except) > 0, len(cfg.Ignore) > 0, len(cfg.IgnoreOnly) > 0, cfg.AllowCommentIgnores && len(c.Directives) > 0} {
-		if b {
-			features++
+	return true
+}
+
+func atLeast1(a bufx.Ann) bufx.Ann {
+	for _, p := range []*int{&a.Line, &a.Col, &a.EndLine, &a.EndCol} {
+		if *p < 1 {
+			*p = 1
 		}
 	}
-	if features >= 2 && len(expected) > 0 && len(expected) < total {
-		r.NonTrivial(fmt.Sprintf("%v|%+v", c.Files, cfg))
-	}
-	for _, m := range c.Mods {
-		if !m.Target {
-			r.Class("has-import-only-module")
-			break
+	return a
+}
+
+func ofType(anns []bufx.Ann, typ string) []bufx.Ann {
+	var out []bufx.Ann
+	for _, a := range anns {
+		if a.Type == typ && len(out) < 8 {
+			out = append(out, a)
 		}
 	}
-	r.Sample(map[string]any{"kind": c.Kind, "config": cfg, "annotations_alone": total, "expected_after_suppression": len(expected), "directives": len(c.Directives)})
+	return out
 }
 
 func diff(a, b []string) []string {
@@ -508,7 +585,11 @@ func prefixFree(paths []string) []string {
 }
 
 func genConfig(t *rapid.T, kind string, paths []string, hot []string) Config {
-	ver := protogen.Versions[rapid.IntRange(0, 2).Draw(t, "version")]
+	return genConfigFor(t, kind, paths, hot, protogen.Versions[rapid.IntRange(0, 2).Draw(t, "version")])
+}
+
+// genConfigFor draws a configuration of the given version.
+func genConfigFor(t *rapid.T, kind string, paths []string, hot []string, ver string) Config {
 	cfg := Config{Version: ver, IgnoreOnly: map[string][]string{}}
 	rules := rulesOf(kind, ver)
 	ids := append(append([]string{}, categoriesOf(kind)...), rules...)
@@ -734,10 +815,16 @@ func addDirective(ws *protogen.Workspace, id, rule string) bool {
 	return done
 }
 
-func genLint(ctx context.Context, t *rapid.T) *Case {
+func genLint(ctx context.Context, t *rapid.T) *Case { return genLintFor(ctx, t, 0, "") }
+
+// genLintFor: maxModules > 0 bounds the number of modules, ver != "" fixes the configuration version.
+func genLintFor(ctx context.Context, t *rapid.T, maxModules int, ver string) *Case {
 	gcfg := protogen.DefaultConfig()
 	gcfg.MaxFiles, gcfg.Groups = 5, false
 	gcfg.SharedDirs = true
+	if maxModules > 0 {
+		gcfg.MaxModules = maxModules
+	}
 	ws := protogen.GenWorkspace(t, gcfg)
 	ed := protogen.NewEditor(t)
 	for i := 0; i < rapid.IntRange(1, 4).Draw(t, "plants"); i++ {
@@ -818,14 +905,24 @@ func genLint(ctx context.Context, t *rapid.T) *Case {
 		}
 		c.Directives = append(c.Directives, Directive{Rule: p.rule, File: file, Start: pos.Start, End: pos.End, Elem: p.id})
 	}
-	c.Config = genConfig(t, "lint", allPaths(c.Files), protogen.SortedKeys(hotSet))
+	if ver != "" {
+		c.Config = genConfigFor(t, "lint", allPaths(c.Files), protogen.SortedKeys(hotSet), ver)
+	} else {
+		c.Config = genConfig(t, "lint", allPaths(c.Files), protogen.SortedKeys(hotSet))
+	}
 	return c
 }
 
-func genBreaking(ctx context.Context, t *rapid.T) *Case {
+func genBreaking(ctx context.Context, t *rapid.T) *Case { return genBreakingFor(ctx, t, 0, "") }
+
+// genBreakingFor: maxModules > 0 bounds the number of modules, ver != "" fixes the configuration version.
+func genBreakingFor(ctx context.Context, t *rapid.T, maxModules int, ver string) *Case {
 	gcfg := protogen.DefaultConfig()
 	gcfg.MaxFiles, gcfg.UnusedImports = 5, false
 	gcfg.MaxPackages, gcfg.MaxModules = 2, 3
+	if maxModules > 0 {
+		gcfg.MaxModules = maxModules
+	}
 	ws := protogen.GenWorkspace(t, gcfg)
 	c := &Case{Kind: "breaking"}
 	c.Old = ws.Render().ByModule
@@ -917,7 +1014,11 @@ func genBreaking(ctx context.Context, t *rapid.T) *Case {
 			paths = append(paths, mv.from)
 		}
 	}
-	c.Config = genConfig(t, "breaking", paths, protogen.SortedKeys(hot))
+	if ver != "" {
+		c.Config = genConfigFor(t, "breaking", paths, protogen.SortedKeys(hot), ver)
+	} else {
+		c.Config = genConfig(t, "breaking", paths, protogen.SortedKeys(hot))
+	}
 	if len(target) > 0 {
 		c.Config.ExcludeImports = rapid.IntRange(0, 3).Draw(t, "exclude-imports") != 0
 	}
@@ -981,6 +1082,20 @@ func TestCategoryNesting(t *testing.T) {
 }
 
 func TestReplay(t *testing.T) {
+	if strings.Contains(evid.ReplayTest(), "TestCLIInputKinds") {
+		var cc CLICase
+		ok, err := evid.ReplayCase(&cc)
+		if !ok {
+			t.Skip("no VERIF_REPLAY")
+		}
+		if err != nil {
+			t.Fatal(err)
+		}
+		r := evid.R()
+		defer r.Begin(t)()
+		runCLI(context.Background(), t, r, &cc)
+		return
+	}
 	var c Case
 	ok, err := evid.ReplayCase(&c)
 	if !ok {
